@@ -104,6 +104,7 @@ func (w *World) call(n *node, kind string, in *pb.Message, f func()) bool {
 		return false
 	}
 	pre := n.st
+	w.clock++
 	if !w.guard(n, kind, f) {
 		return false
 	}
@@ -162,7 +163,7 @@ func (w *World) call(n *node, kind string, in *pb.Message, f func()) bool {
 var selfCheck = os.Getenv("RV_SELFCHECK") != ""
 
 func (w *World) metaFor(n *node, m *pb.Message, post *raft.VerifState) msgMeta {
-	mm := msgMeta{createStep: w.step, cause: w.curCause, typ: m.GetType(), to: m.GetTo(), term: m.GetTerm(), index: m.GetIndex(), reject: m.GetReject(), inc: n.inc}
+	mm := msgMeta{createStep: w.clock, cause: w.curCause, typ: m.GetType(), to: m.GetTo(), term: m.GetTerm(), index: m.GetIndex(), reject: m.GetReject(), inc: n.inc}
 	return mm
 }
 
@@ -303,7 +304,7 @@ func (w *World) removeMsg(id int) {
 func (w *World) sendWire(n *node, m *pb.Message, meta msgMeta) {
 	if meta.typ != m.GetType() || meta.to != m.GetTo() {
 		w.inconclusive("metadata mismatch for %s to %d at node %d (meta %s to %d)", m.GetType(), m.GetTo(), n.id, meta.typ, meta.to)
-		meta = msgMeta{createStep: w.step, typ: m.GetType(), to: m.GetTo(), term: m.GetTerm(), index: m.GetIndex(), reject: m.GetReject(), inc: n.inc}
+		meta = msgMeta{createStep: w.clock, typ: m.GetType(), to: m.GetTo(), term: m.GetTerm(), index: m.GetIndex(), reject: m.GetReject(), inc: n.inc}
 	}
 	w.wireMon(n, m, &meta)
 	if m.GetType() == pb.MsgSnap {
@@ -502,6 +503,7 @@ func (w *World) applyEntries(n *node, ents []*pb.Entry) {
 			return
 		}
 		idx := e.GetIndex()
+		w.clock++
 		if idx <= n.appIndex {
 			// already covered by a snapshot the application installed after
 			// this batch was handed out
@@ -562,6 +564,7 @@ func (w *World) applyEntries(n *node, ents []*pb.Entry) {
 // Exec executes one action. It is deterministic given the world state.
 func (w *World) Exec(a Action) {
 	w.Trace = append(w.Trace, a)
+	w.clock++
 	w.sig = w.sig*1099511628211 ^ uint64(len(a.K))<<8 ^ uint64(a.K[0]) ^ a.N<<16 ^ a.A<<24
 	n := w.nodes[a.N]
 	switch a.K {
@@ -829,7 +832,7 @@ func (w *World) doSendSync(n *node) {
 		if n.rdMetas != nil {
 			meta = n.rdMetas[i]
 		} else {
-			meta = msgMeta{createStep: w.step, typ: m.GetType(), to: m.GetTo(), term: m.GetTerm(), index: m.GetIndex(), reject: m.GetReject(), inc: n.inc}
+			meta = msgMeta{createStep: w.clock, typ: m.GetType(), to: m.GetTo(), term: m.GetTerm(), index: m.GetIndex(), reject: m.GetReject(), inc: n.inc}
 		}
 		w.sendWire(n, m, meta)
 	}
@@ -877,14 +880,14 @@ func (w *World) doReadyAsync(n *node) {
 			resp := m.GetResponses()
 			for i, r := range resp {
 				if r.GetType() == pb.MsgStorageAppendResp {
-					aw.metas = append(aw.metas, msgMeta{createStep: w.step, typ: r.GetType(), to: r.GetTo(), inc: n.inc})
+					aw.metas = append(aw.metas, msgMeta{createStep: w.clock, typ: r.GetType(), to: r.GetTo(), inc: n.inc})
 					continue
 				}
 				if i < len(afterMetas) {
 					aw.metas = append(aw.metas, afterMetas[i])
 				} else {
 					w.inconclusive("async append at node %d carries more responses than tracked", n.id)
-					aw.metas = append(aw.metas, msgMeta{createStep: w.step, typ: r.GetType(), to: r.GetTo(), term: r.GetTerm(), index: r.GetIndex(), reject: r.GetReject(), inc: n.inc})
+					aw.metas = append(aw.metas, msgMeta{createStep: w.clock, typ: r.GetType(), to: r.GetTo(), term: r.GetTerm(), index: r.GetIndex(), reject: r.GetReject(), inc: n.inc})
 				}
 			}
 			n.appQ = append(n.appQ, aw)
@@ -898,7 +901,7 @@ func (w *World) doReadyAsync(n *node) {
 				meta = nowMetas[k]
 			} else {
 				w.inconclusive("async Ready at node %d carries more messages than tracked", n.id)
-				meta = msgMeta{createStep: w.step, typ: m.GetType(), to: m.GetTo(), term: m.GetTerm(), index: m.GetIndex(), reject: m.GetReject(), inc: n.inc}
+				meta = msgMeta{createStep: w.clock, typ: m.GetType(), to: m.GetTo(), term: m.GetTerm(), index: m.GetIndex(), reject: m.GetReject(), inc: n.inc}
 			}
 			k++
 			w.sendWire(n, m, meta)
